@@ -964,4 +964,8 @@ Example run_nontrivial :
     oks = [true; true; true; true; true; true; false; true; true; false] /\
     al_bsearch q (Some 7) = Some true /\ al_bsearch q (Some 8) = Some false /\
     al_get q 4 = GOk None /\ al_free q = Some [6; 7; 9].
-Proof. eexists _, _, _, _. vm_compute. repeat split. Qed.
+Proof.
+  exists (mkal [] 0 0). eexists _, _, _.
+  split; [vm_compute; reflexivity|]. split; [vm_compute; reflexivity|].
+  vm_compute. repeat split.
+Qed.
